@@ -374,6 +374,11 @@ func aggregatorAt(ctx context.Context, cl *cluster.Cluster, i int, byz bool) {
 		return
 	}
 	sleepUntil(trigger)
+	if batchVC(cl) {
+		// a validator client that submits the aggregates of all its validators with one call (realbcast_test.go)
+		aggregatesBatch(cl, n, i, slot, resp.Data, mode)
+		return
+	}
 	for _, v := range cl.Vals {
 		v := v
 		var proof *eth2p0.BLSSignature
